@@ -21,6 +21,7 @@
 package engine
 
 import (
+	"fmt"
 	"go/token"
 	"reflect"
 
@@ -107,6 +108,9 @@ func (r SliceReplacer) Replace(d data.Data, cl Changelog, pos token.Pos) (reflec
 		if err != nil {
 			return reflect.Value{}, err
 		}
+		if err := checkAssignable(item, r.Type.Elem()); err != nil {
+			return reflect.Value{}, err
+		}
 		v.Index(i).Set(item)
 	}
 
@@ -143,6 +147,9 @@ func (r StructReplacer) Replace(d data.Data, cl Changelog, pos token.Pos) (refle
 		if err != nil {
 			return reflect.Value{}, err
 		}
+		if err := checkAssignable(fv, v.Field(i).Type()); err != nil {
+			return reflect.Value{}, fmt.Errorf("%v.%v: %w", r.Type, r.Type.Field(i).Name, err)
+		}
 		v.Field(i).Set(fv)
 	}
 	return v, nil
@@ -172,9 +179,24 @@ func (r InterfaceReplacer) Replace(d data.Data, cl Changelog, pos token.Pos) (re
 		return reflect.Value{}, err
 	}
 
+	if err := checkAssignable(x, r.Type); err != nil {
+		return reflect.Value{}, err
+	}
+
 	v := reflect.New(r.Type).Elem()
 	v.Set(x)
 	return v, nil
+}
+
+// checkAssignable reports an error if v cannot be stored in a location of
+// type t. This happens when a metavariable or "..." stands for something
+// that does not fit where the patch uses it, for example an expression
+// where only an identifier is allowed.
+func checkAssignable(v reflect.Value, t reflect.Type) error {
+	if !v.Type().AssignableTo(t) {
+		return fmt.Errorf("cannot use %v where %v is expected", v.Type(), t)
+	}
+	return nil
 }
 
 // ValueReplacer replace a value as-is.
